@@ -1096,7 +1096,7 @@ theorem getConn_keep (s : State) (n : Nat) : KeepN n s (getConn s).1 := by
 theorem discard_mono (s : State) (x : Option Nat) : Mono s (discard s x).1 := by
   unfold discard
   cases x with
-  | none => exact putConn_mono s none
+  | none => exact Mono.refl s
   | some i => exact (Mono.of_steps (connClose_steps [] s i)).trans (putConn_mono _ none)
 
 /-! ### `_make_request` -/
@@ -1543,6 +1543,10 @@ theorem handleError_emptyPool (u : Bool) (rt : Retry) (m : Bool) : handleError u
   unfold handleError
   rw [if_pos (by decide)]
 
+theorem handleError_closedPool (u : Bool) (rt : Retry) (m : Bool) : handleError u rt m Gen.cU3ClosedPoolError = .propagate := by
+  unfold handleError
+  rw [if_neg (by decide), if_neg (by decide)]
+
 theorem getConn_error_cases {s s' : State} {e : Exc} (hg : getConn s = (s', .error e)) :
     s' = s ∧ (s.closed = true ∨ e.cls = Gen.cU3EmptyPoolError) := by
   refine ⟨getConn_error_state hg, ?_⟩
@@ -1555,15 +1559,8 @@ theorem getConn_error_cases {s s' : State} {e : Exc} (hg : getConn s = (s', .err
       · simp [newConn] at hg
     · split at hg <;> simp [newConn] at hg
 
-theorem discard_none_closed_inv {s : State} (h : Inv s) (hc : s.closed = true) : Inv (discard s none).1 := by
-  have e : discard s none = putConn s none := rfl
-  rw [e]
-  unfold putConn
-  have h0 : Inv (logEv s (.put none)) := logEv_inv _ h
-  have hc0 : (logEv s (.put none)).closed = true := hc
-  generalize logEv s (.put none) = t at h0 hc0
-  simp only [hc0, Bool.not_true, Bool.false_eq_true, if_false]
-  exact h0
+/-- the `finally` clause when `_get_conn()` raised: nothing was taken, nothing is put back -/
+theorem discard_none_inv {s : State} (h : Inv s) : Inv (discard s none).1 := h
 
 theorem markReturned_inv {s : State} {L : List Nat} (r : Nat) (h : InvL s L) : InvL (markReturned s r) L :=
   steps_inv (C := []) (by simp) (setResp_steps [] s r _ (fun _ => rfl)) h
@@ -1641,14 +1638,21 @@ theorem drainConn_exc_ok {s : State} {r : Nat} {e : Exc} (h : (drainConn s r).2 
 theorem discard_exc_ok {s : State} {x : Option Nat} {e : Exc} (h : (discard s x).2 = some e) : okCls e.cls = true := by
   have : e.cls = Gen.cU3FullPoolError := by
     unfold discard at h
-    exact putConn_exc _ _ e h
+    cases x with
+    | none => cases h
+    | some i => exact putConn_exc _ _ e h
   rw [this]; decide
 
 theorem markReturned_mono (s : State) (r : Nat) : Mono s (markReturned s r) :=
   Mono.of_steps (setResp_steps [] s r (fun x => { x with returned := true }) (fun _ => rfl))
 
+/-- the caller passed an argument that is rejected with `ValueError`: a per-request `timeout` that `Timeout` does not
+accept, or a negative `pool_timeout` (which `queue.get` rejects on a `block=True` pool) -/
+def ReqCfg.badArg (rc : ReqCfg) : Bool := rc.badTimeout || rc.badPoolTimeout
+
 /-- what a `urlopen` call may raise: a urllib3 exception, an interrupt, or — when the caller passed a per-request
-timeout that `Timeout` rejects (`bt`) — the `ValueError` for that argument -/
+timeout that `Timeout` rejects or a `pool_timeout` that `queue.get` rejects (`bt`) — the `ValueError` for that
+argument -/
 def okClsB (bt : Bool) (c : Cls) : Bool := okCls c || (bt && c == Gen.cValueError)
 
 theorem okClsB_of {bt : Bool} {c : Cls} (h : okCls c = true) : okClsB bt c = true := by
@@ -1676,33 +1680,33 @@ theorem getConn_error_cls {s s' : State} {e : Exc} (hg : getConn s = (s', .error
 
 /-- what `urlopen` raises before its `try:` -/
 theorem preflight_cls {rc : ReqCfg} {a : Attempt} {e : Exc} (h : preflight rc a = some e) :
-    okClsB rc.badTimeout e.cls = true := by
+    okClsB rc.badArg e.cls = true := by
   unfold preflight at h
   split at h
   · cases h; exact okClsB_of (by decide)
   · split at h
     · rename_i hb
       cases h
-      simp [okClsB, hb, exc]
+      simp [okClsB, ReqCfg.badArg, hb, exc]
     · cases h
 
 /-- what the wait between two attempts raises -/
 theorem waitExc_cls {ra : Bool} {w : WaitOut} {e : Exc} (h : waitExc ra w = some e) : okCls e.cls = true := by
   cases w <;> cases ra <;> simp [waitExc] at h <;> subst h <;> decide
 
-theorem hop_badTimeout (rc : ReqCfg) : rc.hop.badTimeout = rc.badTimeout := rfl
-theorem seeOther_badTimeout (rc : ReqCfg) : rc.seeOther.badTimeout = rc.badTimeout := rfl
+theorem hop_badTimeout (rc : ReqCfg) : rc.hop.badArg = rc.badArg := rfl
+theorem seeOther_badTimeout (rc : ReqCfg) : rc.seeOther.badArg = rc.badArg := rfl
 
 /-- a whole `urlopen` call, whatever the script, the configuration and the retry budget -/
 theorem request_good (rid n : Nat) : ∀ (script : List Attempt) (s : State) (rc : ReqCfg) (retries : Retry),
-    Inv s → n ≤ s.resps.length → Good n rc.badTimeout s (request s rid rc retries script) := by
+    Inv s → n ≤ s.resps.length → Good n rc.badArg s (request s rid rc retries script) := by
   intro script
   induction script with
   | nil => intro s rc retries h _; exact ⟨h, (by intro e he; cases he), KeepN.refl _ _⟩
   | cons a rest ih =>
     intro s rc retries h hn
     have afterDiscard : ∀ (t : State) (x : Option Nat) (e1 : Exc), KeepN n s t → Inv (discard t x).1 → okCls e1.cls = true →
-        Good n rc.badTimeout s (match discard t x with
+        Good n rc.badArg s (match discard t x with
           | (s, some e') => (s, Result.raised e')
           | (s, none) => (s, Result.raised e1)) := by
       intro t x e1 kt pd ok1
@@ -1713,9 +1717,9 @@ theorem request_good (rid n : Nat) : ∀ (script : List Attempt) (s : State) (rc
       cases o with
       | some e' => exact ⟨pd, (by intro e he; cases he; exact okClsB_of (ex rfl)), kd⟩
       | none => exact ⟨pd, (by intro e he; cases he; exact okClsB_of ok1), kd⟩
-    have afterDiscardRec : ∀ (t : State) (x : Option Nat) (rc' : ReqCfg) (rt : Retry), rc'.badTimeout = rc.badTimeout →
+    have afterDiscardRec : ∀ (t : State) (x : Option Nat) (rc' : ReqCfg) (rt : Retry), rc'.badArg = rc.badArg →
         KeepN n s t → Inv (discard t x).1 →
-        Good n rc.badTimeout s (match discard t x with
+        Good n rc.badArg s (match discard t x with
           | (s, some e'') => (s, Result.raised e'')
           | (s, none) => request s rid rc' rt rest) := by
       intro t x rc' rt hbt kt pd
@@ -1727,7 +1731,7 @@ theorem request_good (rid n : Nat) : ∀ (script : List Attempt) (s : State) (rc
       | some e' => exact ⟨pd, (by intro e he; cases he; exact okClsB_of (ex rfl)), kd⟩
       | none => exact Good.from kd (hbt ▸ ih s2 rc' rt pd (Nat.le_trans hn kd.rlen))
     have afterDrain : ∀ (t : State) (r : Nat) (e1 : Exc), KeepN n s t → Inv t → okCls e1.cls = true →
-        Good n rc.badTimeout s (match drainConn t r with
+        Good n rc.badArg s (match drainConn t r with
           | (s, some e) => (s, Result.raised e)
           | (s, none) => (s, Result.raised e1)) := by
       intro t r e1 kt pt ok1
@@ -1740,9 +1744,9 @@ theorem request_good (rid n : Nat) : ∀ (script : List Attempt) (s : State) (rc
       | some e' => exact ⟨pd, (by intro e he; cases he; exact okClsB_of (ex rfl)), kd⟩
       | none => exact ⟨pd, (by intro e he; cases he; exact okClsB_of ok1), kd⟩
     -- drain, then the wait between the attempts (which may raise: the state is the drained one), then recurse
-    have afterDrainRec : ∀ (t : State) (r : Nat) (w : Option Exc) (rc' : ReqCfg) (rt : Retry), rc'.badTimeout = rc.badTimeout →
+    have afterDrainRec : ∀ (t : State) (r : Nat) (w : Option Exc) (rc' : ReqCfg) (rt : Retry), rc'.badArg = rc.badArg →
         (∀ e, w = some e → okCls e.cls = true) → KeepN n s t → Inv t →
-        Good n rc.badTimeout s (match drainConn t r with
+        Good n rc.badArg s (match drainConn t r with
           | (s, some e) => (s, Result.raised e)
           | (s, none) =>
             match w with
@@ -1767,6 +1771,16 @@ theorem request_good (rid n : Nat) : ∀ (script : List Attempt) (s : State) (rc
     | some e0 => exact ⟨h, (by intro e he; cases he; exact preflight_cls hpf), KeepN.refl _ _⟩
     | none =>
     dsimp only
+    -- a `pool_timeout` that `queue.get` rejects: `ValueError` out of `_get_conn`; it is none of `urlopen`'s `except`
+    -- clauses, and the `finally` clause (`conn` is `None`) puts nothing back: the state is untouched
+    rcases getConnT_cases s rc.badPoolTimeout with hT | ⟨hT, -, -, hbad⟩
+    rotate_left
+    · rw [hT]
+      dsimp only
+      rw [show (exc Gen.cValueError).cls = Gen.cValueError from rfl, handleError_valueError]
+      dsimp only [discard]
+      exact ⟨h, (by intro e he; cases he; simp [okClsB, ReqCfg.badArg, hbad, exc]), KeepN.refl _ _⟩
+    rw [hT]
     have kg := getConn_keep s n
     generalize hg : getConn s = res at kg
     obtain ⟨s1, eg⟩ := res
@@ -1790,7 +1804,7 @@ theorem request_good (rid n : Nat) : ∀ (script : List Attempt) (s : State) (rc
         rename_i hh
         rw [hh] at tbl
         rcases hcls with ⟨hcl, _⟩ | hcl
-        · have pd := discard_none_closed_inv h hcl
+        · have pd := discard_none_inv h
           first
             | exact afterDiscard _ _ _ (KeepN.refl _ _) pd tbl
             | exact afterDiscardRec _ _ _ _ (hop_badTimeout rc) (KeepN.refl _ _) pd
@@ -1843,7 +1857,7 @@ theorem request_good (rid n : Nat) : ∀ (script : List Attempt) (s : State) (rc
         | none =>
           dsimp only at lp lk ⊢
           have fin : ∀ (loc ra : Bool) (status : Nat) (w : Option Exc), (∀ e, w = some e → okCls e.cls = true) →
-              Good n rc.badTimeout s
+              Good n rc.badArg s
               (if (rc.redirect && isRedirect s3 r loc) = true then
                 match retries.incrementResp with
                 | none =>
@@ -1874,10 +1888,10 @@ theorem request_good (rid n : Nat) : ∀ (script : List Attempt) (s : State) (rc
                     | none => request s rid rc.hop retries' rest
               else (markReturned s3 r, Result.resp r)) := by
             intro loc ra status w hw
-            have mr : Good n rc.badTimeout s (markReturned s3 r, Result.resp r) :=
+            have mr : Good n rc.badArg s (markReturned s3 r, Result.resp r) :=
               ⟨markReturned_inv r lp, (by intro e he; cases he),
                 lk.trans (markReturned_mono s3 r |>.keep n)⟩
-            have hbt' : (if (status == 303) = true then rc.seeOther else rc.hop).badTimeout = rc.badTimeout := by
+            have hbt' : (if (status == 303) = true then rc.seeOther else rc.hop).badArg = rc.badArg := by
               split <;> rfl
             split
             · split
